@@ -85,6 +85,8 @@ func (m *Internal) NodeDump(args *structs.DCSpecificRequest,
 
 			// this maxIndex will be the max of the NodeDump calls and the PeeringList call
 			var maxIndex uint64
+			// (a blocking query evaluates this function again into the same reply)
+			reply.ImportedDump = nil
 			// Get data for local nodes
 			index, dump, err := state.NodeDump(ws, &args.EnterpriseMeta, structs.DefaultPeerKeyword)
 			if err != nil {
@@ -169,6 +171,8 @@ func (m *Internal) ServiceDump(args *structs.ServiceDumpRequest, reply *structs.
 		func(ws memdb.WatchSet, state *state.Store) error {
 			// this maxIndex will be the max of the ServiceDump calls and the PeeringList call
 			var maxIndex uint64
+			// (a blocking query evaluates this function again into the same reply)
+			reply.ImportedNodes = nil
 
 			// If PeerName is not empty, we return only the imported services from that peer
 			if args.PeerName != "" {
